@@ -31,6 +31,9 @@ def configs(tier):
         out.append(dict(what="loss", kind=kind, extra="obs", B=B))
     for kind in ("statio", "nonstatio"):
         out.append(dict(what="loss", kind=kind, extra="facet-dict", B=B))      # boundary conditions given per facet (dictionaries)
+    # a term switched off by a plain python zero weight whose data are missing (NaN observations, NaN domain of C18): 0 * NaN is NaN in
+    # every execution mode alike
+    out.append(dict(what="loss", kind="ode", extra="nan-obs", B=B))
     n = 4 if tier == "quick" else 6
     for gk in ("times", "inside2", "border", "nonstatio", "param", "obs"):
         out.append(dict(what="gen", kind=gk, n=n, b=2, x64=False))
@@ -47,11 +50,18 @@ def leaves_with_shapes(tree):
     return [l for l in jax.tree_util.tree_leaves(tree, is_leaf=_is_objarr) if _is_objarr(l)]
 
 
+def _same(p, q):
+    from .. import nanmode
+    if nanmode._o:          # NaN domain installed: same NaN flag and, where not NaN, same value
+        return nanmode.feq(p, q)
+    return eq(p, q)
+
+
 def same_tree(label, a, b):
     la, lb = leaves_with_shapes(a), leaves_with_shapes(b)
     if len(la) != len(lb) or any(x.shape != y.shape for x, y in zip(la, lb)):
         return [(label + " (structure/shapes)", tm.FALSE)]
-    return [(label, tm.conj([eq(p, q) for x, y in zip(la, lb) for p, q in zip(x.flat, y.flat)]))]
+    return [(label, tm.conj([_same(p, q) for x, y in zip(la, lb) for p, q in zip(x.flat, y.flat)]))]
 
 
 def run_gen_ctor(cfg, R):
@@ -91,6 +101,10 @@ def run(cfg, R):
     from jinns.parameters import Params, ParamsDict
     kind, extra, B = cfg["kind"], cfg["extra"], cfg["B"]
     userorder = (extra == "user-order")
+    nanobs = (extra == "nan-obs")
+    if nanobs:
+        from .. import nanmode
+        nanmode.install()
     if kind.startswith("system"):
         from .c12 import run_system as _rs
         loss, params, batch = build_system(kind.split("_")[1], B, extra, keys=(("x", "v") if userorder else ("a", "b")))
@@ -98,7 +112,10 @@ def run(cfg, R):
         loss, params, batch = build_facet_dict(kind, B)
     else:
         u, params, loss, batch = _mk(kind, B)
-        if extra == "plain":
+        if nanobs:
+            from jinns.loss import LossWeightsODE
+            loss = eqx.tree_at(lambda l: l.loss_weights, loss, LossWeightsODE(dyn_loss=1.0, initial_condition=1.0, observations=0.0))
+        elif extra == "plain":
             batch = eqx.tree_at(lambda b: b.obs_batch_dict, batch, None)
         else:
             pb = {"kappa": jnp.arange(1, B + 1).reshape(B, 1) * 0.3, "theta": jnp.arange(1, B + 1).reshape(B, 1) * 0.2 + 0.05}
@@ -128,6 +145,8 @@ def run(cfg, R):
         mid = (jax.tree_util.tree_map(lambda x: x, params), jax.tree_util.tree_map(lambda x: x, batch))
         r2 = loss.evaluate(params, batch)
         rj = eqx.filter_jit(lambda l, p, b: l.evaluate(p, b))(loss, params, batch)
+        # plain jax.jit with the loss object as an ARGUMENT (what jinns.solve compiles: python-number leaves such as weights become traced values)
+        rj = (rj, jax.jit(lambda l, p, b: l.evaluate(p, b))(loss, params, batch))
         (v, aux), _g = jax.value_and_grad(lambda p: loss.evaluate(p, batch), has_aux=True)(params)
         after = (jax.tree_util.tree_map(lambda x: x, params), jax.tree_util.tree_map(lambda x: x, batch), snap(loss))
         if extra == "obs":
@@ -137,6 +156,26 @@ def run(cfg, R):
 
     tr = R.trace(name, f, (loss, params, batch), key=key + ":raises", trace_only_is_violation=True)
     if tr is None: return
+    if nanobs:
+        # symbolic NaN flags on the observed values; replays write NaN where the model sets a flag
+        from ..nanmode import FN
+        vname = [nm for nm in tr.names if nm.endswith("obs_batch_dict_val")][0]
+        kv = tr.names.index(vname)
+        arr = tr.sym_ins[kv]; fl = np.empty(arr.shape, dtype=object)
+        for idx in np.ndindex(*arr.shape):
+            fl[idx] = FN(arr[idx], tm.var("nan_val" + "".join(f"_{i}" for i in idx), "Bool"))
+        tr.sym_ins[kv] = fl; tr.A = tr._rebuild(tr.sym_ins)
+        def leaf_hook(model, leaves):
+            out = []
+            for nm, l in zip(tr.names, leaves):
+                if nm == vname:
+                    a = np.array(l, dtype=np.float64)
+                    for idx in np.ndindex(*a.shape):
+                        if model.get("nan_val" + "".join(f"_{i}" for i in idx), False): a[idx] = np.nan
+                    l = jnp.asarray(a)
+                out.append(l)
+            return out
+        tr.leaf_hook = leaf_hook
 
     def goals(A, O):
         loss_, p, b_ = A
@@ -145,7 +184,8 @@ def run(cfg, R):
         if len(O) > 7:
             G += same_tree("a repeated evaluation on the batch without observations returns the same result after the loss was evaluated with observations", O[7][0], O[7][1])
         G += same_tree("a repeated evaluation on the same arguments returns the same result", r1, r2)
-        G += same_tree("jit(evaluate) returns the same result", r1, rj)
+        G += same_tree("jit(evaluate) returns the same result", r1, rj[0])
+        G += same_tree("jit(evaluate) with the loss object as an argument returns the same result", r1, rj[1])
         G += same_tree("the primal output of value_and_grad(evaluate) is the same result", r1, rv)
         G += same_tree("args-unchanged: parameters after one evaluation are the caller's parameters", mid[0], p)
         G += same_tree("args-unchanged: batch after one evaluation is the caller's batch", mid[1], b_)
@@ -159,7 +199,7 @@ def run(cfg, R):
         t = flat_terms(r1)[0]
         return [("the total loss is identically 0", eq(t, const(0, "Real")))]
 
-    R.check(name, tr, goals, twin_fn=twins, key_fn=lambda prog, g: key + ":" + g.split(":")[0][:40])
+    R.check(name, tr, goals, twin_fn=twins, validate=(not nanobs), key_fn=lambda prog, g: key + ":" + g.split(":")[0][:40])
 
 
 def build_facet_dict(kind, B):
